@@ -271,7 +271,7 @@ theorem createFile_ok {fs0 fs fs' : FS} {k : Key} (h : Inv fs0 fs) (hfr : Fresh 
           cases e
           exact inv_of_set h (fresh_ino hfr hl) _ (by rw [nextIno_set]; exact Nat.le_refl _) (fun _ => rfl)
         · cases e
-          exact inv_of_set h (.inr h.1) _ (by simp [nextIno_set]) (fun _ => rfl)
+          exact inv_of_set h (.inr h.1) _ (by simp) (fun _ => rfl)
 
 theorem setMode_ok {fs0 fs : FS} {k : Key} (mode : Nat) (h : Inv fs0 fs) (hfr : Fresh fs0.nextIno fs k) :
     Inv fs0 (fs.setMode k mode) ∧ Fresh fs0.nextIno (fs.setMode k mode) k := by
@@ -301,7 +301,7 @@ theorem appendFile_ok {fs0 fs fs' : FS} {k : Key} {b : Bytes} (h : Inv fs0 fs) (
       · cases e
         exact appendBytes_ok b h hfr
       · cases e
-        exact inv_of_set h (.inr h.1) _ (by simp [nextIno_set]) (fun _ => rfl)
+        exact inv_of_set h (.inr h.1) _ (by simp) (fun _ => rfl)
 
 theorem readFile_notFound {fs : FS} {k : Key} (h : fs.readFile k = .error .notFound) :
     fs.lookup k = none := by
